@@ -16,6 +16,7 @@ Inductive trigger :=
   | TrDanglingParent      (* K4: a parent component of the name is a dangling symlink *)
   | TrRelativeName        (* D20: the operation names its path relatively *)
   | TrHiddenViaLink
+  | TrHopLimit            (* K8: the kernel refuses the caller's name with ELOOP (more than 40 symlink hops), BackupFS resolves it *)
   | TrForceNewParent      (* D22: ForceBackup of a path below a directory that was created in the transaction *)
   | TrRemovesRoot.        (* K6: Remove/RemoveAll/Rename of the root directory of the base view itself *)      (* D9: a name that is not lexically hidden resolves (through a symlink or a physical ..) into a hidden path *)
 
@@ -123,7 +124,9 @@ Section Trig.
     existsb (fun a => match query (a_lstat b a) w with
                       | Some fi =>
                           match fi_kind fi with
-                          | KLink => match query (a_stat b a) w with Some _ => false | None => true end
+                          | KLink => match fst (a_stat b a w) with
+                                     | MErr e => is_not_found e   (* leads nowhere; ELOOP is K8 *)
+                                     | _ => false end
                           | _ => false
                           end
                       | None => false end)
@@ -180,6 +183,10 @@ Section Trig.
      | ORemove n | ORemoveAll n | ORename n _ => if str_eqb (clean n) s_root then [TrRemovesRoot] else []
      | _ => []
      end) ++
+    (if existsb (fun n => match fst (a_lstat b n w), query (real_path b n) w with
+                          | MErr ELOOP, Some _ => true
+                          | _, _ => false end) (op_paths o)
+     then [TrHopLimit] else []) ++
     (match o with
      | OForceBackup n =>
          match query (real_path b n) w with
